@@ -552,7 +552,7 @@ const timeField = sizeField + 21
 // genRaw produces index-entry bytes: valid entries and mutations of them.
 func genRaw(r *common.RNG, idIdx int) ([]byte, string) {
 	id := ids[idIdx]
-	ci := r.Intn(len(contents))
+	ci := pickContent(r)
 	d := contents[ci]
 	e := validEntry(id, outOf(d), int64(len(d)), int64(1700000000000000000+r.Intn(1000000)))
 	switch k := r.Intn(16); k {
@@ -647,13 +647,21 @@ func genRaw(r *common.RNG, idIdx int) ([]byte, string) {
 	}
 }
 
+// pickContent: the 40000-byte content (expensive in the model) is drawn less often
+func pickContent(r *common.RNG) int {
+	if r.Chance(1, 16) {
+		return len(contents) - 1
+	}
+	return r.Intn(len(contents) - 1)
+}
+
 func genHistory(r *common.RNG) ([]hop, []string) {
 	n := 3 + r.Intn(28)
 	var hs []hop
 	var kinds []string
 	for len(hs) < n {
 		id := r.Intn(len(ids))
-		c := r.Intn(len(contents))
+		c := pickContent(r)
 		switch x := r.Intn(100); {
 		case x < 24:
 			k := "put"
@@ -707,7 +715,7 @@ func genHistory(r *common.RNG) ([]hop, []string) {
 			case 3:
 				hs = append(hs, hop{Kind: "delete", K: k, ID: id, C: c})
 			case 4:
-				hs = append(hs, hop{Kind: "repl", K: k, ID: id, C: c, T: r.Intn(len(contents))})
+				hs = append(hs, hop{Kind: "repl", K: k, ID: id, C: c, T: pickContent(r)})
 			default:
 				// write a content under another content's name (data), equal-length partner preferred
 				t := c ^ 1
@@ -801,7 +809,7 @@ func runC05(f *common.Flags, res *common.Result, m *mdl) {
 		raw, tag := genRaw(r, 0)
 		hs := []hop{}
 		if r.Bool() {
-			hs = append(hs, hop{Kind: "put", ID: 1, C: r.Intn(len(contents))})
+			hs = append(hs, hop{Kind: "put", ID: 1, C: pickContent(r)})
 		}
 		hs = append(hs, hop{Kind: "write", K: "a", ID: 0, Raw: raw}, hop{Kind: "get", ID: 0},
 			hop{Kind: "getbytes", ID: 0}, hop{Kind: "getfile", ID: 0})
